@@ -41,6 +41,15 @@ def cluster (specs : List OptionSpec) (mode : Mode) : Str → Except ParseError 
         | .ok (os, p) => .ok ((s, none) :: os, p)
         | .error e => .error e
 
+/-- what a resolved long option `s` yields (`hasEq`: an `=arg` was attached) -/
+def longOne (mode : Mode) (s : OptionSpec) (hasEq : Bool) (arg : Str) : Except ParseError (List Opt × Option OptionSpec) :=
+  if ¬ mode.longOptionNames ∨ (s.extension ∧ ¬ mode.extensionOptions) then .error (.nonPortableLong s)
+  else match s.takesArg, hasEq with
+    | false, false => .ok ([(s, none)], none)
+    | false, true => .error (.unexpectedArgument s)
+    | true, false => .ok ([], some s)
+    | true, true => .ok ([(s, some arg)], none)
+
 /-- one `--name` / `--name=arg` argument (`body` = text after `--`) -/
 def longOpt (specs : List OptionSpec) (mode : Mode) (body : Str) : Except ParseError (List Opt × Option OptionSpec) :=
   let name := body.takeWhile (· ≠ '=')
@@ -48,13 +57,7 @@ def longOpt (specs : List OptionSpec) (mode : Mode) (body : Str) : Except ParseE
   let arg := (body.dropWhile (· ≠ '=')).drop 1
   match candidates specs name with
   | [] => .error .unknownLong
-  | [s] =>
-    if ¬ mode.longOptionNames ∨ (s.extension ∧ ¬ mode.extensionOptions) then .error (.nonPortableLong s)
-    else match s.takesArg, hasEq with
-      | false, false => .ok ([(s, none)], none)
-      | false, true => .error (.unexpectedArgument s)
-      | true, false => .ok ([], some s)
-      | true, true => .ok ([(s, some arg)], none)
+  | [s] => longOne mode s hasEq arg
   | ss => .error (.ambiguousLong ss)
 
 def cons (os : List Opt) : View → View
